@@ -56,4 +56,26 @@ def roddedBnds (L : α) (regs : List (α × α)) : α × α :=
   let idx := firstNonzero (gaps L lo hi)
   ((0 :: hi).getD idx 0, (lo ++ [L]).getD idx L)
 
+/-- the complete verdict: attribute errors come first (they are raised inside the loop over the user's regions, before the
+bounds are looked at), then the bound errors of `checkRegions` -/
+inductive RErrF where
+  | noCoolant | unknownModel | bounds (e : RErr)
+  deriving DecidableEq, Repr
+
+/-- per region, in the user's order: `vf_coolant` must be positive, then the model name must be one of the two that exist -/
+def checkAttrs : List (α × Bool) → Except RErrF Unit
+  | [] => .ok ()
+  | (vf, known) :: t =>
+    if vf ≤ 0 then .error RErrF.noCoolant
+    else if !known then .error RErrF.unknownModel
+    else checkAttrs t
+
+/-- `check_unrodded_regions` for the regions `(z_lo, z_hi)` with their attributes `(vf_coolant, model name known)` -/
+def checkRegionsFull (L : α) (regs : List (α × α)) (attrs : List (α × Bool)) : Except RErrF Unit :=
+  match checkAttrs attrs with
+  | .error e => .error e
+  | .ok () => match checkRegions L regs with
+    | .error e => .error (RErrF.bounds e)
+    | .ok () => .ok ()
+
 end Dassh.Model.AcceptRegions
